@@ -41,7 +41,14 @@ func (fc *FnCtx) externCall(st *State, instr ssa.CallInstruction, callee *ssa.Fu
 	case "(*sync.Once).Do":
 		return fc.onceDo(st, instr, args, resT)
 	}
-	vc.note("extern " + full + " has no contract: result havocked, no side effects assumed (used in " + fc.name + ")")
+	// fail closed: a call into a dependency that has no (assumed) contract may do
+	// anything to the objects it is handed; the unit cannot be verified around it
+	vc.note("extern " + full + " has no contract (used in " + fc.name + ")")
+	pos := "-"
+	if instr != nil {
+		pos = fc.e.pos(instr.Pos())
+	}
+	fc.vc.oblige(st, "extern", "", "call of "+full+" which has no contract in spec/externs.spec", pos, "false")
 	return vc.havoc(resT, "ext_"+callee.Name(), st.alloc)
 }
 
@@ -49,6 +56,10 @@ func (fc *FnCtx) intrinsicInvoke(st *State, instr ssa.CallInstruction, key strin
 	switch key {
 	case "error.Error":
 		return fc.vc.havoc(resT, "errstr", st.alloc), true
+	case "interface{Unwrap() error}.Unwrap", "interface{Unwrap() []error}.Unwrap":
+		// the children of an error node: arbitrary well-formed values, no effects
+		fc.vc.note("assumed: Unwrap methods of foreign error types have no side effects (result havocked)")
+		return fc.vc.havoc(resT, "unwrap", st.alloc), true
 	}
 	return SV{}, false
 }
@@ -386,7 +397,10 @@ func (fc *FnCtx) mapGet(st *State, mt types.Type, m Term, key Term, raw bool) SV
 	in := mkSel(mkSel(fc.vc.colGet(st, dom, SArr2Bool), m), key)
 	out := SV{Typ: vt}
 	z := fc.vc.zero(vt)
+	leaves := fc.e.shape(vt).Leaves
 	for i, c := range cols {
+		// references stored in a map of the pre-state are allocated in the pre-state
+		fc.vc.refColumn(c, sorts[i], leaves[i])
 		v := mkSel(mkSel(fc.vc.colGet(st, c, sorts[i]), m), key)
 		out.T = append(out.T, mkIte(in, v, z.T[i]))
 	}
@@ -462,7 +476,7 @@ func (fc *FnCtx) mapDelete(st *State, mt types.Type, m Term, k SV, instr ssa.Ins
 
 func (fc *FnCtx) mapLen(st *State, mt types.Type, m Term, resT types.Type) SV {
 	t := fc.vc.define("maplen", SInt, fc.ghostGet(st, "mapLen", SInt, m))
-	fc.vc.assert(mkLe("0", t))
+	fc.vc.assert(mkImp(st.guard, mkLe("0", t)))
 	return SV{Typ: resT, T: []Term{t}}
 }
 
@@ -849,6 +863,10 @@ func (fc *FnCtx) selectStmt(st *State, x *ssa.Select) {
 			}
 			if sv, ok := sentVals[a.Case]; ok {
 				env.vars["sendval"] = sv
+			}
+			if a.Case >= 0 && a.Case < len(x.States) {
+				// selchan: the channel operand of this case
+				env.vars["selchan"] = fc.val(x.States[a.Case].Chan)
 			}
 			fc.vc.safeEval(fmt.Sprintf("%s:%d at select", a.C.File, a.C.Line), func() {
 				switch a.What {
